@@ -91,6 +91,8 @@ func cmdCheck(args []string) int {
 	var reports []*funcReport
 	repOf := map[string]*funcReport{}
 	var outside []string
+	var outsideFns []string
+	var crashes []string
 	var missing []string
 	for _, n := range p.cs.Order {
 		c := p.cs.Funcs[n]
@@ -101,7 +103,13 @@ func cmdCheck(args []string) int {
 		if c.Trusted || c.Skip {
 			continue
 		}
-		ex := p.verifyFunc(n)
+		ex, crashed := p.verifyFuncSafe(n)
+		if crashed != "" {
+			if contractMentionsProp(c, id) || len(c.Props) == 0 {
+				crashes = append(crashes, n+": "+crashed)
+			}
+			continue
+		}
 		fr := &funcReport{Name: n}
 		for _, o := range ex.obls {
 			if hasProp(o, id) {
@@ -113,6 +121,7 @@ func cmdCheck(args []string) int {
 			fr.Unsupported = ex.unsupported
 			if fr.Obligations > 0 {
 				outside = append(outside, n+": "+strings.Join(ex.unsupported, "; "))
+				outsideFns = append(outsideFns, n)
 			}
 		}
 		if fr.Obligations > 0 {
@@ -177,6 +186,22 @@ func cmdCheck(args []string) int {
 			writeJSON(path, map[string]interface{}{"property": id, "obligation": m + "/exists", "reason": "function under contract not found in /repo's current source; its obligations cannot be generated"})
 			lines = append(lines, fmt.Sprintf("VIOLATION property=%s replay=%s obligation=%s/exists no-failing-input-found", id, path, m))
 		}
+	}
+	for i, n := range outsideFns {
+		// the function uses something the verifier cannot model: nothing in it counts as proved
+		violations++
+		os.MkdirAll(replayDir, 0o755)
+		path := filepath.Join(replayDir, "outside-subset-"+sanitize(n)+".json")
+		writeJSON(path, map[string]interface{}{"property": id, "obligation": n + "/within-verified-subset", "reason": "the function now uses constructs outside the verified subset; its obligations cannot be generated faithfully", "details": outside[i]})
+		lines = append(lines, fmt.Sprintf("VIOLATION property=%s replay=%s obligation=%s/within-verified-subset no-failing-input-found", id, path, n))
+	}
+	for _, cmsg := range crashes {
+		violations++
+		os.MkdirAll(replayDir, 0o755)
+		n := strings.SplitN(cmsg, ":", 2)[0]
+		path := filepath.Join(replayDir, "vcgen-failed-"+sanitize(n)+".json")
+		writeJSON(path, map[string]interface{}{"property": id, "obligation": n + "/vc-generation", "reason": "obligation generation failed for this function (it verified on the unchanged tree)", "details": cmsg})
+		lines = append(lines, fmt.Sprintf("VIOLATION property=%s replay=%s obligation=%s/vc-generation no-failing-input-found", id, path, n))
 	}
 	for _, v := range vac {
 		violations++
@@ -368,4 +393,15 @@ func (p *Prog) globalObligations(id string) []*Obligation {
 		}
 	}
 	return out
+}
+
+// verifyFuncSafe runs VC generation for one function and converts a generator panic into a report.
+func (p *Prog) verifyFuncSafe(n string) (ex *Exec, crashed string) {
+	defer func() {
+		if r := recover(); r != nil {
+			crashed = fmt.Sprint(r)
+			ex = nil
+		}
+	}()
+	return p.verifyFunc(n), ""
 }
